@@ -231,59 +231,124 @@ Lemma translate_pod_identity cls p :
   p_labels (translate_pod cls p) = p_labels p /\ p_prio (translate_pod cls p) = p_prio p
   /\ p_status_qos (translate_pod cls p) = p_status_qos p /\ p_ann (translate_pod cls p) = p_ann p.
 Proof. unfold translate_pod. destruct (seqb cls PriorityNone || seqb cls PriorityProd); auto. Qed.
+Lemma translate_pod_frame cls p :
+  p_plres (translate_pod cls p) = p_plres p /\ p_oann (translate_pod cls p) = p_oann p.
+Proof. unfold translate_pod. destruct (seqb cls PriorityNone || seqb cls PriorityProd); auto. Qed.
+
+Lemma plres_same_refl keys o : plres_same keys o o.
+Proof. destruct o as [[r l]|]; cbn; auto. Qed.
+
+(* the class of a pod depends on its identity, its status QoS and its resources only *)
+Lemma pclass_ext p q :
+  p_status_qos q = p_status_qos p -> p_init q = p_init p -> p_ctrs q = p_ctrs p ->
+  p_plres q = p_plres p -> p_prio q = p_prio p ->
+  lget K_QOS (p_labels q) = lget K_QOS (p_labels p) ->
+  lget K_PCLASS (p_labels q) = lget K_PCLASS (p_labels p) ->
+  pclass_with_default q = pclass_with_default p.
+Proof.
+  intros S I C R P Q L.
+  unfold pclass_with_default, pclass_raw, qos_with_default, qos_raw, qos_of_kube, kube_best_effort.
+  rewrite S, I, C, R, P, Q, L. reflexivity.
+Qed.
 
 (* ------------------------------------------------------------------ the profile step *)
+(* what no profile touches: status, containers, overhead, pod-level resources *)
 Definition same_body (p p' : pod) : Prop :=
   p_status_qos p' = p_status_qos p /\ p_init p' = p_init p /\ p_ctrs p' = p_ctrs p
-  /\ p_overhead p' = p_overhead p /\ p_ann p' = p_ann p.
+  /\ p_overhead p' = p_overhead p /\ p_plres p' = p_plres p.
 
 Lemma same_body_refl p : same_body p p.
 Proof. repeat split. Qed.
 Lemma same_body_trans p q r : same_body p q -> same_body q r -> same_body p r.
 Proof. unfold same_body. intuition congruence. Qed.
 
-Lemma apply_profile_body pf p p' : apply_profile pf p = Some p' -> same_body p p'.
+(* annotations written by a profile: a value is never "absent", and only the annotation
+   fields change *)
+Definition ann_frame (p p' : pod) : Prop :=
+  same_body p p' /\ p_labels p' = p_labels p /\ p_prio p' = p_prio p
+  /\ (p_ann p' = AnnAbsent -> p_ann p = AnnAbsent).
+Lemma ann_frame_refl p : ann_frame p p.
+Proof. repeat split; auto. Qed.
+Lemma ann_frame_trans p q r : ann_frame p q -> ann_frame q r -> ann_frame p r.
 Proof.
-  unfold apply_profile. destruct (pf_pc pf); intros H; inversion H; subst; repeat split.
+  intros (B1 & L1 & P1 & A1) (B2 & L2 & P2 & A2).
+  split; [eapply same_body_trans; eassumption|].
+  split; [congruence|]. split; [congruence|auto].
 Qed.
-Lemma apply_profiles_body e ps : forall p p', apply_profiles e ps p = Some p' -> same_body p p'.
+Lemma aval_not_absent a : aval a <> AnnAbsent.
+Proof. destruct a; discriminate. Qed.
+Lemma aset_frame k a p : ann_frame p (aset k (aval a) p).
+Proof.
+  unfold aset. destruct (k =? A_SPEC); repeat split; cbn; auto.
+  intros H. exfalso. exact (aval_not_absent a H).
+Qed.
+Lemma fold_aset_frame {A} (f : pod -> A -> Z) (g : pod -> A -> ann) (l : list A) : forall p,
+  ann_frame p (fold_left (fun q x => aset (f q x) (aval (g q x)) q) l p).
+Proof.
+  induction l as [|x t IH]; intros p; cbn [fold_left]; [apply ann_frame_refl|].
+  eapply ann_frame_trans; [apply aset_frame|apply IH].
+Qed.
+Lemma apply_profile_anns_frame pf p : ann_frame p (apply_profile_anns pf p).
+Proof.
+  unfold apply_profile_anns.
+  eapply ann_frame_trans.
+  - apply (fold_aset_frame (fun _ kv => fst kv) (fun _ kv => snd kv)).
+  - apply (fold_aset_frame (fun _ on => snd on) (fun q on => aget (fst on) q)).
+Qed.
+
+Lemma apply_profile_body pf p p' :
+  apply_profile pf p = Some p' -> same_body p p' /\ (p_ann p' = AnnAbsent -> p_ann p = AnnAbsent).
+Proof.
+  unfold apply_profile. destruct (apply_profile_anns_frame pf p) as (B & _ & _ & A).
+  destruct (pf_pc pf); intros H; inversion H; subst; cbn; split; auto.
+Qed.
+Lemma apply_profiles_body e ps : forall p p',
+  apply_profiles e ps p = Some p' -> same_body p p' /\ (p_ann p' = AnnAbsent -> p_ann p = AnnAbsent).
 Proof.
   induction ps as [|pf t IH]; cbn [apply_profiles]; intros p p' H.
-  - inversion H. apply same_body_refl.
+  - inversion H. split; [apply same_body_refl|auto].
   - destruct (should_skip e pf) as [[|]|]; [apply IH; exact H| |discriminate H].
     destruct (apply_profile pf p) as [p0|] eqn:E; [|discriminate H].
-    eapply same_body_trans; [eapply apply_profile_body; exact E|apply IH; exact H].
+    destruct (apply_profile_body pf p p0 E) as [B0 A0]. destruct (IH p0 p' H) as [B1 A1].
+    split; [eapply same_body_trans; eassumption|auto].
 Qed.
 
 Lemma profile_step_shape e ps p p1 :
   profile_step e ps p = Some p1 ->
-  exists p', same_body p p'
+  exists p', same_body p p' /\ (p_ann p' = AnnAbsent -> p_ann p = AnnAbsent)
     /\ p1 = (if translating e ps p then translate_pod (pclass_with_default p') p' else p').
 Proof.
   unfold profile_step, translating.
   destruct (filter (profile_matches e p) ps) as [|a m] eqn:F.
-  - intros H. inversion H. exists p1. split; [apply same_body_refl|reflexivity].
+  - intros H. inversion H. exists p1. split; [apply same_body_refl|split; [auto|reflexivity]].
   - destruct (apply_profiles e (sort_profiles (a :: m)) p) as [p'|] eqn:A; [|discriminate].
-    intros H. exists p'. split; [eapply apply_profiles_body; exact A|].
+    intros H. exists p'. destruct (apply_profiles_body e _ p p' A) as [B AA].
+    split; [exact B|split; [exact AA|]].
     destruct (translation_enabled e (a :: m)); inversion H; reflexivity.
 Qed.
 
-Lemma with_identity_of_body p p' p1 :
-  same_body p p' -> p_labels p1 = p_labels p' -> p_prio p1 = p_prio p' -> with_identity p1 p = p'.
+Lemma with_identity_class p p' p1 :
+  same_body p p' -> p_labels p1 = p_labels p' -> p_prio p1 = p_prio p' ->
+  pclass_with_default (with_identity p1 p) = pclass_with_default p'.
 Proof.
-  intros (B1 & B2 & B3 & B4 & B5) L P. unfold with_identity.
-  rewrite L, P, <- B1, <- B2, <- B3, <- B4, <- B5. destruct p'; reflexivity.
+  intros (B1 & B2 & B3 & B4 & B5) L P. symmetry.
+  apply pclass_ext; unfold with_identity; cbn [p_status_qos p_init p_ctrs p_plres p_prio p_labels];
+    congruence.
 Qed.
 
 Lemma profile_step_resources keys e ps p p1 :
   profile_step e ps p = Some p1 -> resources_ok keys (translating e ps p) p p1.
 Proof.
-  intros H. destruct (profile_step_shape e ps p p1 H) as (p' & B & E).
+  intros H. destruct (profile_step_shape e ps p p1 H) as (p' & B & _ & E).
   unfold resources_ok.
-  assert (W : with_identity p1 p = p').
-  { apply with_identity_of_body; [exact B| |]; subst p1; destruct (translating e ps p);
+  assert (W : pclass_with_default (with_identity p1 p) = pclass_with_default p').
+  { apply with_identity_class; [exact B| |]; subst p1; destruct (translating e ps p);
     try reflexivity; apply translate_pod_identity. }
   rewrite W. destruct B as (B1 & B2 & B3 & B4 & B5).
+  split.
+  { subst p1. destruct (translating e ps p).
+    - rewrite (proj1 (translate_pod_frame _ p')), B5. apply plres_same_refl.
+    - rewrite B5. apply plres_same_refl. }
   destruct (translating e ps p); cbn [andb].
   - destruct (tier_class (pclass_with_default p')) eqn:T; subst p1; rewrite <- B2, <- B3, <- B4.
     + apply translate_pod_tier. exact T.
@@ -292,12 +357,13 @@ Proof.
     split; [|split]; try (apply Forall2_refl; apply container_same_refl). auto.
 Qed.
 
-Lemma profile_step_ann e ps p p1 : profile_step e ps p = Some p1 -> p_ann p1 = p_ann p.
+(* the profile step never removes the summary annotation *)
+Lemma profile_step_ann e ps p p1 :
+  profile_step e ps p = Some p1 -> p_ann p1 = AnnAbsent -> p_ann p = AnnAbsent.
 Proof.
-  intros H. destruct (profile_step_shape e ps p p1 H) as (p' & B & E).
-  destruct B as (_ & _ & _ & _ & B5). subst p1.
-  destruct (translating e ps p); [|exact B5].
-  destruct (translate_pod_identity (pclass_with_default p') p') as (_ & _ & _ & A). congruence.
+  intros H. destruct (profile_step_shape e ps p p1 H) as (p' & _ & A & E).
+  subst p1. destruct (translating e ps p); [|exact A].
+  destruct (translate_pod_identity (pclass_with_default p') p') as (_ & _ & _ & X). rewrite X. exact A.
 Qed.
 
 (* ------------------------------------------------------------------ the summary annotation *)
@@ -306,7 +372,8 @@ Lemma extspec_shape e p p2 :
   p_labels p2 = p_labels p /\ p_prio p2 = p_prio p /\ p_status_qos p2 = p_status_qos p
   /\ p_init p2 = p_init p /\ p_ctrs p2 = p_ctrs p /\ p_overhead p2 = p_overhead p
   /\ (e_gate_noext e = true -> p_ann p2 = p_ann p)
-  /\ ann_ok (e_gate_noext e) p p2.
+  /\ ann_ok (e_gate_noext e) p p2
+  /\ p_plres p2 = p_plres p /\ p_oann p2 = p_oann p.
 Proof.
   unfold extspec_step, ann_ok. destruct (e_gate_noext e).
   - intros H. inversion H. subst p2. repeat split; discriminate.
@@ -319,10 +386,10 @@ Qed.
 
 Lemma resources_ok_transfer keys en p p1 p2 :
   p_labels p2 = p_labels p1 -> p_prio p2 = p_prio p1 -> p_init p2 = p_init p1 ->
-  p_ctrs p2 = p_ctrs p1 -> p_overhead p2 = p_overhead p1 ->
+  p_ctrs p2 = p_ctrs p1 -> p_overhead p2 = p_overhead p1 -> p_plres p2 = p_plres p1 ->
   resources_ok keys en p p1 -> resources_ok keys en p p2.
 Proof.
-  intros L P I C O. unfold resources_ok, with_identity. rewrite L, P, I, C, O. auto.
+  intros L P I C O R. unfold resources_ok, with_identity. rewrite L, P, I, C, O, R. auto.
 Qed.
 
 (* main theorem of part M: every successful Create admission ends in a pod that satisfies
@@ -333,10 +400,12 @@ Lemma create_mutated keys e ps p pout :
 Proof.
   unfold admit_pod. cbn [OP_CREATE Z.eqb].
   destruct (profile_step e ps p) as [p1|] eqn:S; [|discriminate].
-  intros X. destruct (extspec_shape e p1 pout X) as (L & P & Q & I & C & O & _ & A).
+  intros X. destruct (extspec_shape e p1 pout X) as (L & P & Q & I & C & O & _ & A & R & _).
   split.
   - eapply resources_ok_transfer; eauto. apply profile_step_resources. exact S.
-  - unfold ann_ok in *. rewrite (profile_step_ann e ps p p1 S) in A. exact A.
+  - unfold ann_ok in *. intros N. specialize (A N).
+    destruct (p_ann pout); [|exact A|exact A].
+    destruct A as [A1 A2]. split; [exact A1|]. exact (profile_step_ann e ps p p1 S A2).
 Qed.
 
 (* ------------------------------------------------------------------ readable corollaries *)
@@ -494,14 +563,21 @@ Lemma existsb_map_false {A} (f : A -> bool) (g : A -> A) l :
   (forall a, f (g a) = false) -> existsb f (map g l) = false.
 Proof. intros H. induction l; cbn; [reflexivity|]. rewrite H, IHl. reflexivity. Qed.
 
-Lemma kbe_translated cls p : tier_class cls = true -> kube_best_effort (translate_pod cls p) = true.
+Lemma kbe_translated cls p : tier_class cls = true -> p_plres p = None ->
+  kube_best_effort (translate_pod cls p) = true.
 Proof.
-  intros H. unfold kube_best_effort, translate_pod. rewrite (tier_not_none_prod cls H).
-  cbn [p_ctrs p_init]. rewrite <- map_app. rewrite existsb_map_false; [reflexivity|].
+  intros H N. unfold kube_best_effort, translate_pod. rewrite (tier_not_none_prod cls H).
+  cbn [p_ctrs p_init p_plres]. rewrite N. rewrite <- map_app. rewrite existsb_map_false; [reflexivity|].
   intros c. destruct (tier_ext cls H) as (e1 & e2 & H1 & H2).
   destruct (translate_preserves cls c R_CPU e1 H1) as (A1 & B1 & _).
   destruct (translate_preserves cls c R_MEM e2 H2) as (A2 & B2 & _).
   rewrite !pos_cpu_mem_false by assumption. reflexivity.
+Qed.
+(* with pod-level resources the containers are not looked at *)
+Lemma kbe_plres cls p x : p_plres p = Some x ->
+  kube_best_effort (translate_pod cls p) = kube_best_effort p.
+Proof.
+  intros N. unfold kube_best_effort. rewrite (proj1 (translate_pod_frame cls p)), N. reflexivity.
 Qed.
 
 Lemma tier_prod : tier_class PriorityProd = false.
@@ -515,19 +591,23 @@ Lemma pclass_stable p :
 Proof.
   intros H. set (cls := pclass_with_default p) in *.
   destruct (translate_pod_identity cls p) as (L & P & S & _).
-  pose proof (kbe_translated cls p H) as K.
-  unfold pclass_with_default, pclass_raw, qos_with_default, qos_raw, qos_of_kube in *.
-  rewrite L, P, S, K.
-  destruct (seqb (match lget K_PCLASS (p_labels p) with
-                  | Some v => pclass_by_name v
-                  | None => match p_prio p with Some v => getPriorityClassByPriority v | None => PriorityNone end
-                  end) PriorityNone); [|reflexivity].
-  destruct (seqb (match lget K_QOS (p_labels p) with Some v => qos_by_name v | None => QoSNone end) QoSNone);
-    [|reflexivity].
-  destruct (seqb (p_status_qos p) EmptyString); [|reflexivity].
-  destruct (kube_best_effort p); [reflexivity|].
-  (* not best-effort: the class would be prod, which is no tier class *)
-  subst cls. exfalso. revert H. vm_compute. discriminate.
+  destruct (p_plres p) as [x|] eqn:PL.
+  - pose proof (kbe_plres cls p x PL) as K.
+    unfold pclass_with_default, pclass_raw, qos_with_default, qos_raw, qos_of_kube.
+    rewrite L, P, S, K. reflexivity.
+  - pose proof (kbe_translated cls p H PL) as K.
+    unfold pclass_with_default, pclass_raw, qos_with_default, qos_raw, qos_of_kube in *.
+    rewrite L, P, S, K.
+    destruct (seqb (match lget K_PCLASS (p_labels p) with
+                    | Some v => pclass_by_name v
+                    | None => match p_prio p with Some v => getPriorityClassByPriority v | None => PriorityNone end
+                    end) PriorityNone); [|reflexivity].
+    destruct (seqb (match lget K_QOS (p_labels p) with Some v => qos_by_name v | None => QoSNone end) QoSNone);
+      [|reflexivity].
+    destruct (seqb (p_status_qos p) EmptyString); [|reflexivity].
+    destruct (kube_best_effort p); [reflexivity|].
+    (* not best-effort: the class would be prod, which is no tier class *)
+    subst cls. exfalso. revert H. vm_compute. discriminate.
 Qed.
 
 Lemma translate_pod_non_tier cls p : tier_class cls = false -> translate_pod cls p = p.
@@ -567,40 +647,139 @@ Proof.
   - rewrite (translate_pod_non_tier _ p' T). apply translate_pod_non_tier. exact T.
 Qed.
 
-Lemma pod_eq_of_body p q :
-  same_body p q -> p_labels q = p_labels p -> p_prio q = p_prio p -> q = p.
+(* ---------- profiles that do not write the summary annotation leave it alone ---------- *)
+Lemma aset_other_ann k a p : (k =? A_SPEC) = false -> p_ann (aset k a p) = p_ann p.
+Proof. intros H. unfold aset. rewrite H. reflexivity. Qed.
+
+Lemma fold_aset_ann {A} (f : A -> Z) (g : pod -> A -> ann) (l : list A) : forall p,
+  existsb (fun x => f x =? A_SPEC) l = false ->
+  p_ann (fold_left (fun q x => aset (f x) (g q x) q) l p) = p_ann p.
 Proof.
-  intros (B1 & B2 & B3 & B4 & B5) L P. destruct p, q; cbn in *; subst; reflexivity.
+  induction l as [|x t IH]; intros p H; cbn [fold_left]; [reflexivity|].
+  cbn [existsb] in H. apply orb_false_iff in H. destruct H as [H1 H2].
+  rewrite IH by exact H2. apply aset_other_ann. exact H1.
 Qed.
 
-(* re-admission as Create changes nothing, provided the re-applied profiles leave the pod's
-   identity (labels, priority) alone and the translation is switched the same way *)
+Lemma apply_profile_anns_ann pf p : writes_summary pf = false -> p_ann (apply_profile_anns pf p) = p_ann p.
+Proof.
+  unfold writes_summary, apply_profile_anns. intros H. apply orb_false_iff in H. destruct H as [H1 H2].
+  rewrite (fold_aset_ann (fun on : Z * Z => snd on) (fun q on => aval (aget (fst on) q))) by exact H2.
+  apply (fold_aset_ann (fun kv : Z * ann => fst kv) (fun _ kv => aval (snd kv))). exact H1.
+Qed.
+Lemma apply_profile_ann pf p p' :
+  writes_summary pf = false -> apply_profile pf p = Some p' -> p_ann p' = p_ann p.
+Proof.
+  intros W. unfold apply_profile. pose proof (apply_profile_anns_ann pf p W) as A.
+  destruct (pf_pc pf); intros H; inversion H; subst; cbn; exact A.
+Qed.
+Lemma apply_profiles_ann e ps : forall p p',
+  existsb writes_summary ps = false -> apply_profiles e ps p = Some p' -> p_ann p' = p_ann p.
+Proof.
+  induction ps as [|pf t IH]; cbn [apply_profiles existsb]; intros p p' W H.
+  - inversion H. reflexivity.
+  - apply orb_false_iff in W. destruct W as [W1 W2].
+    destruct (should_skip e pf) as [[|]|]; [apply IH; assumption| |discriminate H].
+    destruct (apply_profile pf p) as [p0|] eqn:E; [|discriminate H].
+    rewrite (IH p0 p' W2 H). apply (apply_profile_ann pf p p0 W1 E).
+Qed.
+
+Lemma In_insert_profile x y l : In x (insert_profile y l) -> x = y \/ In x l.
+Proof.
+  induction l as [|z t IH]; cbn [insert_profile].
+  - intros [H|[]]; auto.
+  - destruct (pf_name y <=? pf_name z).
+    + intros [H|H]; auto.
+    + intros [H|H]; [right; left; exact H|]. destruct (IH H) as [E|E]; [auto|right; right; exact E].
+Qed.
+Lemma In_sort_profiles x l : In x (sort_profiles l) -> In x l.
+Proof.
+  induction l as [|y t IH]; cbn [sort_profiles fold_right]; [auto|].
+  intros H. apply In_insert_profile in H. destruct H as [H|H]; [left; congruence|right; apply IH; exact H].
+Qed.
+Lemma existsb_false_sort f l : existsb f l = false -> existsb f (sort_profiles l) = false.
+Proof.
+  intros H. destruct (existsb f (sort_profiles l)) eqn:E; [|reflexivity].
+  apply existsb_exists in E. destruct E as (x & Hx & Fx).
+  assert (X : existsb f l = true) by (apply existsb_exists; exists x; split; [apply In_sort_profiles; exact Hx|exact Fx]).
+  congruence.
+Qed.
+
+Lemma profile_step_shape_ann e ps p p1 :
+  profile_step e ps p = Some p1 -> touches_summary e ps p = false ->
+  exists p', same_body p p' /\ p_ann p' = p_ann p
+    /\ p1 = (if translating e ps p then translate_pod (pclass_with_default p') p' else p').
+Proof.
+  unfold profile_step, translating, touches_summary.
+  destruct (filter (profile_matches e p) ps) as [|a m] eqn:F.
+  - intros H _. inversion H. exists p1. split; [apply same_body_refl|split; reflexivity].
+  - destruct (apply_profiles e (sort_profiles (a :: m)) p) as [p'|] eqn:A; [|discriminate].
+    intros H W. exists p'. destruct (apply_profiles_body e _ p p' A) as [B _].
+    split; [exact B|]. split; [apply (apply_profiles_ann e _ p p' (existsb_false_sort _ _ W) A)|].
+    destruct (translation_enabled e (a :: m)); inversion H; reflexivity.
+Qed.
+
+Lemma pod_eq_of_body p q :
+  same_body p q -> p_labels q = p_labels p -> p_prio q = p_prio p -> p_ann q = p_ann p ->
+  q = set_oann (p_oann q) p.
+Proof.
+  intros (B1 & B2 & B3 & B4 & B5) L P A. destruct p, q; cbn in *; subst; reflexivity.
+Qed.
+
+Lemma pclass_set_oann o p : pclass_with_default (set_oann o p) = pclass_with_default p.
+Proof. reflexivity. Qed.
+Lemma translate_set_oann cls o p : translate_pod cls (set_oann o p) = set_oann o (translate_pod cls p).
+Proof. unfold translate_pod. destruct (seqb cls PriorityNone || seqb cls PriorityProd); reflexivity. Qed.
+Lemma extspec_set_oann e o p :
+  extspec_step e (set_oann o p) = option_map (set_oann o) (extspec_step e p).
+Proof.
+  unfold extspec_step. destruct (e_gate_noext e); [reflexivity|]. cbn [set_oann p_ann p_ctrs].
+  destruct (p_ann p); try reflexivity. destruct (build_spec 0 (p_ctrs p)); reflexivity.
+Qed.
+
+(* an admitted pod is a fixed point of the translation for its own class *)
+Lemma admitted_fixed e ps p p1 :
+  admit_pod e OP_CREATE ps p = Some p1 -> translating e ps p = true ->
+  translate_pod (pclass_with_default p1) p1 = p1.
+Proof.
+  unfold admit_pod. cbn [OP_CREATE Z.eqb].
+  destruct (profile_step e ps p) as [q1|] eqn:S1; [|discriminate]. intros X1 TR.
+  destruct (profile_step_shape e ps p q1 S1) as (p' & _ & _ & E1). rewrite TR in E1.
+  destruct (extspec_is_set_ann e q1 p1 X1) as (a & Ea). rewrite Ea.
+  rewrite pclass_set_ann, translate_set_ann. f_equal. rewrite E1. apply translated_fixed.
+Qed.
+
+(* re-admission as Create changes nothing the property talks about, provided the re-applied
+   profiles leave the pod's identity (labels, priority) alone, do not write the summary
+   annotation themselves and the translation is switched the same way; annotations other
+   than the summary may be rewritten by the profiles *)
 Lemma readmit_create e ps p p1 p3 :
   admit_pod e OP_CREATE ps p = Some p1 ->
   admit_pod e OP_CREATE ps p1 = Some p3 ->
   p_labels p3 = p_labels p1 -> p_prio p3 = p_prio p1 ->
   translating e ps p1 = translating e ps p ->
-  p3 = p1.
+  touches_summary e ps p1 = false ->
+  p3 = set_oann (p_oann p3) p1.
 Proof.
-  unfold admit_pod. cbn [OP_CREATE Z.eqb].
-  destruct (profile_step e ps p) as [q1|] eqn:S1; [|discriminate]. intros X1.
-  destruct (profile_step e ps p1) as [q3|] eqn:S3; [|discriminate]. intros X3 L P TR.
-  destruct (profile_step_shape e ps p q1 S1) as (p' & B' & E1).
-  destruct (profile_step_shape e ps p1 q3 S3) as (p'' & B'' & E3).
-  destruct (extspec_shape e q3 p3 X3) as (L3 & P3 & _).
-  assert (Lq : p_labels q3 = p_labels p'' /\ p_prio q3 = p_prio p'').
-  { rewrite E3. destruct (translating e ps p1); [|split; reflexivity].
-    destruct (translate_pod_identity (pclass_with_default p'') p'') as (A1 & A2 & _). split; assumption. }
-  destruct Lq as [Lq Pq].
-  assert (Hp'' : p'' = p1).
-  { apply pod_eq_of_body; [exact B''| |]; congruence. }
-  subst p''. rewrite TR in E3.
-  assert (Hq3 : q3 = p1).
-  { rewrite E3. destruct (translating e ps p); [|reflexivity].
-    destruct (extspec_is_set_ann e q1 p1 X1) as (a & Ea). rewrite Ea.
-    rewrite pclass_set_ann, translate_set_ann. f_equal.
-    rewrite E1. apply translated_fixed. }
-  rewrite Hq3 in X3. rewrite (extspec_idem e q1 p1 X1) in X3. inversion X3. reflexivity.
+  intros A1 A3 L P TR TS.
+  pose proof (readmit_update e ps p p1 A1) as U.
+  unfold admit_pod in U. cbn [OP_CREATE OP_UPDATE Z.eqb Pos.eqb] in U.
+  pose proof (admitted_fixed e ps p p1 A1) as FX.
+  unfold admit_pod in A3. cbn [OP_CREATE Z.eqb] in A3.
+  destruct (profile_step e ps p1) as [q3|] eqn:S3; [|discriminate].
+  destruct (profile_step_shape_ann e ps p1 q3 S3 TS) as (p'' & B'' & AN & E3).
+  destruct (extspec_shape e q3 p3 A3) as (L3 & P3 & _ & _ & _ & _ & _ & _ & _ & O3).
+  assert (Lq : p_labels q3 = p_labels p'' /\ p_prio q3 = p_prio p'' /\ p_oann q3 = p_oann p'').
+  { rewrite E3. destruct (translating e ps p1); [|repeat split; reflexivity].
+    destruct (translate_pod_identity (pclass_with_default p'') p'') as (X1 & X2 & _).
+    destruct (translate_pod_frame (pclass_with_default p'') p'') as (_ & X3). repeat split; assumption. }
+  destruct Lq as (Lq & Pq & Oq).
+  assert (Hp'' : p'' = set_oann (p_oann p'') p1).
+  { apply pod_eq_of_body; [exact B''| | |exact AN]; congruence. }
+  assert (Hq3 : q3 = set_oann (p_oann p'') p1).
+  { rewrite E3, TR. destruct (translating e ps p) eqn:T; [|exact Hp''].
+    rewrite Hp'' at 1 2. rewrite pclass_set_oann, translate_set_oann, (FX eq_refl). reflexivity. }
+  rewrite Hq3, extspec_set_oann, U in A3. cbn [option_map] in A3. inversion A3 as [A3'].
+  cbn [set_oann p_oann]. reflexivity.
 Qed.
 
 (* ------------------------------------------------------------------ Spec connection *)
@@ -641,10 +820,20 @@ Proof.
   - destruct H as [H1 H2]. apply andb_true_iff. split; apply opt_eqb_eq; assumption.
 Qed.
 
+Lemma plres_sameb_spec keys a b : plres_sameb keys a b = true <-> plres_same keys a b.
+Proof.
+  unfold plres_sameb, plres_same. destruct a as [[r1 l1]|], b as [[r2 l2]|];
+    try (split; [discriminate|contradiction]); try (split; auto; fail).
+  rewrite forallb_forall. split; intros H k Hk; specialize (H k Hk).
+  - apply andb_true_iff in H. destruct H as [H1 H2]. apply opt_eqb_eq in H1, H2. auto.
+  - destruct H as [H1 H2]. apply andb_true_iff. split; apply opt_eqb_eq; assumption.
+Qed.
+
 Lemma resources_okb_spec keys en pin pout :
   resources_okb keys en pin pout = true <-> resources_ok keys en pin pout.
 Proof.
-  unfold resources_okb, resources_ok.
+  unfold resources_okb, resources_ok. rewrite andb_true_iff, plres_sameb_spec.
+  apply and_iff_compat_l.
   destruct (en && tier_class (pclass_with_default (with_identity pout pin))).
   - rewrite !andb_true_iff, forallb_forall.
     rewrite !(forallb2_Forall2 _ _ (container_translatedb_spec keys _)).
